@@ -229,8 +229,13 @@ def finish(prop, tier, seed, level, t0, stats, failures, harness_errors,
         nviol += 1
         code = 1
     if harness_errors:
+        uniq = {}
         for h in harness_errors:
-            lines.append('HARNESS-ERROR property=%s %s' % (prop, h))
+            k = h.strip().splitlines()[-1] if h.strip() else h
+            uniq.setdefault(k, [0, h])[0] += 1
+        for k, (n, h) in list(uniq.items())[:3]:
+            lines.append('HARNESS-ERROR property=%s (x%d) %s' % (
+                prop, n, '\n'.join(h.splitlines()[-12:])))
         if code == 0:
             code = 2
     if code == 0 and (coverage['evaluations'] < 1
